@@ -3,6 +3,7 @@
 use vcommon::pipeline::{Analyzed, analyze_one};
 use veryl_metadata::Metadata;
 use vgen::Design;
+use vcommon::{Args, Run, json};
 
 /// Diagnostics the simulator's own test-suite also tolerates (lint-like errors
 /// that do not stop simulation) — a design carrying only these is still
@@ -28,3 +29,72 @@ pub fn accept(design: &Design, metadata: &Metadata) -> Accept {
         }
     }
 }
+
+/// Sanitizer arm shared by the simulator monitors: run this binary again for property `prop` on
+/// `cases` cases under valgrind memcheck (`--smc-check=all-non-file`: JIT- and cc-generated code is
+/// translated too) and
+/// turn every error context whose stack contains a frame of a veryl crate into a
+/// violation keyed on that frame.  A missing valgrind or a crashed child is inconclusive.
+pub fn memcheck_arm(run: &Run, args: &Args, prop: &str, cases: u64, sets: &[(&str, String)]) {
+    let exe = std::env::current_exe().unwrap();
+    let dir = std::path::PathBuf::from(format!("/verif/scratch/{}-memcheck-{}", prop.to_lowercase(), std::process::id()));
+    let _ = std::fs::create_dir_all(&dir);
+    let log = dir.join("vg.log");
+    let st = std::process::Command::new("valgrind")
+        .args(["--smc-check=all-non-file", "--num-callers=16", "--error-limit=no"])
+        .arg(format!("--log-file={}", log.display()))
+        .arg(&exe)
+        .args(["--prop", prop, "--seed", &args.seed.to_string(), "--jobs", "4"])
+        .args(["--set", &format!("cases={cases}"), "--set", "memcheck_child=1"])
+        .args(sets.iter().flat_map(|(k, v)| ["--set".to_string(), format!("{k}={v}")]))
+        .arg("--evidence")
+        .arg(dir.join("child.json"))
+        .arg("--replay-dir")
+        .arg(dir.join("replay"))
+        .stdout(std::process::Stdio::null())
+        .stderr(std::process::Stdio::null())
+        .status();
+    match st {
+        Err(e) => run.inconclusive(format!("memcheck arm: cannot start valgrind: {e}")),
+        Ok(s) if s.code().is_none() => run.inconclusive("memcheck arm: child killed by a signal".into()),
+        Ok(_) => {
+            let text = std::fs::read_to_string(&log).unwrap_or_default();
+            let mut contexts = 0u64;
+            let mut cur: Option<(String, Option<String>)> = None;
+            let mut flush = |cur: &mut Option<(String, Option<String>)>| {
+                if let Some((kind, frame)) = cur.take() {
+                    contexts += 1;
+                    match frame {
+                        Some(f) => run.violation(
+                            &format!("memcheck:{f}"),
+                            &format!("valgrind memcheck: {kind} with in-repo frame {f}"),
+                            json!({"kind": kind, "frame": f, "log": log.display().to_string()}),
+                        ),
+                        None => run.note(format!("memcheck report without a veryl frame: {kind}")),
+                    }
+                }
+            };
+            for line in text.lines() {
+                let body = line.splitn(3, "==").nth(2).unwrap_or("").trim();
+                if body.starts_with("Invalid ") || body.starts_with("Conditional jump") || body.starts_with("Use of uninitialised") || body.starts_with("Mismatched ") || body.starts_with("Source and destination overlap") {
+                    flush(&mut cur);
+                    cur = Some((body.to_string(), None));
+                } else if let Some((_, frame)) = cur.as_mut()
+                    && frame.is_none()
+                    && (body.starts_with("at ") || body.starts_with("by "))
+                    && body.contains("veryl_")
+                {
+                    let f = body.split(": ").nth(1).unwrap_or(body);
+                    *frame = Some(f.split(" (").next().unwrap_or(f).to_string());
+                } else if body.is_empty() {
+                    flush(&mut cur);
+                }
+            }
+            flush(&mut cur);
+            run.count("memcheck_designs", cases as i64);
+            run.count("memcheck_error_contexts", contexts as i64);
+        }
+    }
+    let _ = std::fs::remove_dir_all(&dir);
+}
+
